@@ -702,6 +702,11 @@ func cmdCheck(args []string) {
 	os.WriteFile(filepath.Join(*verif, "evidence", *prop+".json"), append(data, '\n'), 0644)
 	if notAttempted > 0 {
 		fmt.Printf("NOTE %d further ledger obligations were not attempted after %d had failed\n", notAttempted, w.stopAfter)
+		if violations == 0 {
+			// cannot happen: solving only stops early once enough ledger obligations have failed
+			fmt.Println("ERROR: obligations were left unattempted although nothing failed (engine fault)")
+			os.Exit(3)
+		}
 	}
 	fmt.Printf("%s %s: %d/%d ledger obligations discharged, %d undecided (not claimed), %d known findings, %d unattached, %.1fs\n",
 		*prop, *tier, discharged, claimed, len(undecided), len(knownHit), len(unattached), time.Since(start).Seconds())
